@@ -168,6 +168,14 @@ def scenario(draw, n_contests=(1, 2), kinds=None, audit_types=("CARD_COMPARISON"
             "pool_workflow": draw(st.sampled_from([True, True, False]))}
 
 
+def from_file(obj):
+    """the same value as if it had been read from a JSON/TOML file: equal, but none of its strings is the identical
+    object as a constant of the library (configuration is read from files in real audits)"""
+    import json
+
+    return json.loads(json.dumps(obj))
+
+
 def build(scn, pool_workflow=True):
     """-> (audit, contests, cvrs, mvrs) library objects for a scenario (fresh objects on every call)."""
     import copy
@@ -182,19 +190,19 @@ def build(scn, pool_workflow=True):
     for cid, s in scn["contests"].items():
         t = TESTS[s["test"]]
         cd = {"name": cid, "risk_limit": s["risk_limit"], "cards": s.get("cards", n), "n_winners": len(s["winners"]),
-              "candidates": list(s["cands"]), "winner": list(s["winners"]), "audit_type": s["audit_type"],
+              "candidates": list(s["cands"]), "winner": list(s["winners"]), "audit_type": from_file(s["audit_type"]),
               "test": getattr(NonnegMean, t["test"]), "estim": getattr(NonnegMean, t["estim"]) if t.get("estim") else None,
               "bet": getattr(NonnegMean, t["bet"]) if t.get("bet") else None, "test_kwargs": dict(t["kw"]),
               "use_style": us, "g": 0.1}
         if s["kind"] == "plurality":
-            cd["choice_function"] = "PLURALITY"
+            cd["choice_function"] = from_file("PLURALITY")
         elif s["kind"] == "super":
-            cd["choice_function"] = "SUPERMAJORITY"
+            cd["choice_function"] = from_file("SUPERMAJORITY")
             cd["share_to_win"] = float(Fraction(s["f"]))
         else:
-            cd["choice_function"] = "IRV"
+            cd["choice_function"] = from_file("IRV")
             cd["assertion_file"] = "generated"
-            cd["assertion_json"] = copy.deepcopy(s["json"])
+            cd["assertion_json"] = from_file(s["json"])
         d[cid] = cd
     contests = Contest.from_dict_of_dicts(d)
     audit = Audit.from_dict({"seed": 12345678901234567890, "sim_seed": 314159265, "quantile": 0.8, "error_rate_1": 0.001,
